@@ -498,8 +498,10 @@ def judge_keydel(state: dict[str, Any], op: dict[str, Any], run: dict[str, Any],
     label = op["label"]
     confirmed = op["force"] or op["answer"] == "Yes"
     if op["answer"] in ("Yes\n", "\nYes") and not op["force"]:
-        res.bump("boundary:answer-with-newline")  # input() cannot return it; the code strips newlines: not judged
-        return None
+        # input() cannot return a newline; the code strips newlines before comparing.  Whether such an answer confirms
+        # is not judged; what a deletion may remove is.
+        res.bump("boundary:answer-with-newline")
+        confirmed = True
     added = [t for t in after if t not in before]
     removed = [t for t in before if t not in after]
     if not confirmed:
@@ -516,10 +518,12 @@ def judge_keydel(state: dict[str, Any], op: dict[str, Any], run: dict[str, Any],
     usable = table(state, usable_only=True)
     pubs = [t for t in usable if t[4] == label and t[3] == CKO_PUBLIC]
     privs = [t for t in usable if t[4] == label and t[3] == CKO_PRIVATE]
-    if len(pubs) == 1 and len(privs) == 1:
-        left = [t for t in after if t in pubs + privs]
+    if len(pubs) == 1:
+        # the label names one public object (and at most one private object): a confirmed deletion removes it (them)
+        named = pubs + (privs if len(privs) == 1 else [])
+        left = [t for t in after if t in named]
         if left:
-            key = "delete-wrong-session" if (pubs[0][:2] != first_session(state) or privs[0][:2] != first_session(state)) else "delete-pair-left"
+            key = "delete-wrong-session" if any(t[:2] != first_session(state) for t in named) else "delete-pair-left"
             res.violation(WHAT_DELETE, ctx, key=key, left=left, impl=run["impl"])
             return key
     return None
@@ -673,46 +677,59 @@ def compare_model(op: dict[str, Any], run: dict[str, Any], o: dict[str, Any], re
     if "driver_error" in o:
         res.disagreement("driver error", ctx, run["impl"], o)
         return
-    m = o["result"]
-    if lib.is_unsupported(m) or lib.is_unsupported(o.get("storeResult")):
-        res.unsupported += 1
-        return
     impl = run["impl"]
-    d = C.first_log_difference(run["log"], o["log"])
     what = op["op"]
-    m_ok = isinstance(m, dict) and "ok" in m
-    if ("ok" in impl) != m_ok:
-        res.disagreement(f"{what}: model result (log replay) != implementation", ctx, impl, m, log_difference=d)
-        return
-    if d is not None:
-        res.disagreement(f"{what}: model issues different token operations", ctx, impl, m if not m_ok else "ok", log_difference=d)
-        return
+    m = o["result"]
+    # (1) log replay: result and complete operation sequence
+    if lib.is_unsupported(m):
+        # the recorded token was asked something else than the model asks at some point (the replaying oracle answers
+        # "other"): on an unrepaired tree this is every keygen that reaches C_GenerateKeyPair (F9a: the private-class
+        # lookup is missing).  Counted; the store-backed comparison below still applies.
+        res.unsupported += 1
+        res.bump("replay-unsupported:" + what)
+    else:
+        d = C.first_log_difference(run["log"], o["log"])
+        m_ok = isinstance(m, dict) and "ok" in m
+        if ("ok" in impl) != m_ok:
+            res.disagreement(f"{what}: model result (log replay) != implementation", ctx, impl, m, log_difference=d)
+            return
+        if d is not None:
+            res.disagreement(f"{what}: model issues different token operations", ctx, impl, m if not m_ok else "ok", log_difference=d)
+            return
     if o.get("init") == "failed":
         return
+    # (2) the same program on the object table
     sr = o["storeResult"]
-    if json.dumps(sr, sort_keys=True) != json.dumps(m, sort_keys=True):
+    if lib.is_unsupported(sr):
+        res.bump("store-unsupported:" + what)
+        return
+    s_ok = isinstance(sr, dict) and "ok" in sr
+    if not lib.is_unsupported(m) and json.dumps(sr, sort_keys=True) != json.dumps(m, sort_keys=True) and not ("error" in sr and "error" in m):
         res.disagreement(f"{what}: store-backed run and log replay of the same program disagree", ctx, m, sr)
+        return
+    if ("ok" in impl) != s_ok:
+        res.disagreement(f"{what}: model result (store-backed) != implementation", ctx, impl, sr)
         return
     if json.dumps(o["store"], sort_keys=True) != json.dumps(run["after_store"], sort_keys=True):
         res.disagreement(f"{what}: object table after the operation differs from the store semantics", ctx, run["after_store"], o["store"])
         return
-    if not m_ok:
+    if not s_ok:
         return
     if what == "keygen":
         rep = parse_keygen_messages(run["messages"])
-        mo = m["ok"]
+        mo = sr["ok"]
         got = {"label": rep.get("label"), "keyTag": rep.get("tag"), "revokedTag": rep.get("revoked"), "dns": rep.get("dns"), "words": rep.get("words")}
         want = {"label": mo["label"], "keyTag": mo["keyTag"], "revokedTag": mo["revokedTag"], "dns": "\n".join(mo["dnsLines"]), "words": " ".join(mo["words"])}
         if got != want:
             res.disagreement("keygen: report differs", ctx, got, want)
     elif what == "keydel":
-        if impl["ok"] is not True or m["ok"] is not True:
-            res.disagreement("keydel: return value", ctx, impl, m)
+        if impl["ok"] is not True or sr["ok"] is not True:
+            res.disagreement("keydel: return value", ctx, impl, sr)
     else:
         msgs = [x for lvl, x in run["messages"] if x.startswith("Key inventory:\n")]
         text = msgs[0][len("Key inventory:\n") :] if msgs else None
-        if text != "\n".join(m["ok"]):
-            res.disagreement("inventory: lines differ", ctx, text, "\n".join(m["ok"]))
+        if text != "\n".join(sr["ok"]):
+            res.disagreement("inventory: lines differ", ctx, text, "\n".join(sr["ok"]))
 
 
 # --------------------------------------------------------------------------------------
